@@ -221,6 +221,132 @@ def selectors(ctx, rule, pin):
     ctx.floor(rule, n, rule + ".payloads")
 
 
+def _operand_locals(o):
+    if isinstance(o, dict):
+        if o.get("k") in ("copy", "move", "ref", "discr", "len") and isinstance(o.get("pl"), dict):
+            yield o["pl"]["l"]
+            for e in o["pl"]["p"]:
+                if e.get("k") == "index" and "l" in e:
+                    yield e["l"]
+        else:
+            for v in o.values():
+                yield from _operand_locals(v)
+    elif isinstance(o, list):
+        for v in o:
+            yield from _operand_locals(v)
+
+
+def loop_variant(body, loop, operand):
+    """does the value of `operand`, read inside the loop (a set of blocks), change from one iteration to the next?  True when its
+    backward slice inside the loop reaches a loop-carried local (defined both outside and inside the loop), the result of a
+    read from the input, or the result of a call on something that is mutably borrowed inside the loop"""
+    mut_borrowed = set()
+    for bb in loop:
+        for st in body.blocks[bb]["stmts"]:
+            if st["k"] == "assign" and st["rv"]["k"] == "ref" and st["rv"].get("mut"):
+                mut_borrowed.add(st["rv"]["pl"]["l"])
+    seen = set()
+
+    def points_at_mut(l, depth=0):
+        # `_5 = &buffer` / `_5 = &mut buffer`: the local the reference was taken from
+        if l in mut_borrowed:
+            return True
+        if depth > 4:
+            return False
+        for d in body.defs.get(l, ()):
+            if d[2] == "assign" and d[3]["k"] == "ref" and points_at_mut(d[3]["pl"]["l"], depth + 1):
+                return True
+            if d[2] == "assign" and d[3]["k"] == "use" and d[3]["op"].get("k") in ("copy", "move") and \
+                    points_at_mut(d[3]["op"]["pl"]["l"], depth + 1):
+                return True
+        return False
+
+    def var(l):
+        if l in seen:
+            return False
+        seen.add(l)
+        ds = [d for d in body.defs.get(l, ()) if d[2] in ("assign", "call")]
+        inside = [d for d in ds if d[0] in loop]
+        outside = [d for d in ds if d[0] not in loop]
+        if inside and outside:
+            return True
+        for d in inside:
+            if d[2] == "call":
+                cs = d[3]
+                if (cs.trait or "").split("::")[-1] in ("BitRead", "PackedRead"):
+                    return True
+                for a in cs.args:
+                    for x in _operand_locals(a):
+                        if var(x) or points_at_mut(x):
+                            return True
+            else:
+                for x in _operand_locals(d[3]):
+                    if var(x):
+                        return True
+        return False
+    return any(var(l) for l in _operand_locals(operand))
+
+
+def r7(ctx):
+    rule = "C10.R7"
+    ctx.rule(rule, "continuation fragments are appended, X.691 11.9.3.8: inside the loop of read_octetstring / read_bitstring that reads the "
+                   "length of the next fragment, the place the fragment is read to - the start of the slice handed to read_bits, or "
+                   "the offset handed to read_bits_with_offset_len - changes from one iteration to the next (it is a loop-carried "
+                   "position or the current length of the buffer); a start that is fixed before the loop makes every fragment after "
+                   "the first continuation land on the same octets and the reader consume the wrong number of bits")
+    P = ctx.program()
+    n = 0
+    for m in ("read_octetstring", "read_bitstring"):
+        bs = [b for b in P.lib_bodies("asn1rs") if PR in b.path and b.name == m and b.def_kind == "AssocFn" and "::promoted[" not in b.path]
+        if len(bs) != 1:
+            ctx.fail(rule, "anchor-lost:" + m, "matched %d bodies" % len(bs))
+            continue
+        b = bs[0]
+        loops = b.sccs()
+        conts = [cs for cs in b.calls() if cs.name == "read_length_determinant" and any(cs.bb in l for l in loops)]
+        if not conts:
+            ctx.fail(rule, m + "#anchor-lost:fragment-loop", "%s has no loop that reads the length of a continuation fragment" % m,
+                     "%s:%d" % (b.file, b.line))
+            continue
+        for cs0 in conts:
+            loop = next(l for l in loops if cs0.bb in l)
+            reads = [cs for cs in b.calls() if cs.bb in loop and (cs.trait or "").split("::")[-1] == "BitRead" and cs.name.startswith("read_bits")]
+            if not reads:
+                ctx.fail(rule, m + "#anchor-lost:fragment-read", "the fragment loop of %s reads no bits" % m, cs0.loc())
+                continue
+            for cs in reads:
+                n += 1
+                where = None
+                if cs.name in ("read_bits_with_offset_len", "read_bits_with_offset") and len(cs.args) >= 3:
+                    where = ("offset argument", cs.args[2])
+                else:
+                    # the destination slice: `&mut buffer[start..]` = IndexMut::index_mut(&mut buffer, RangeFrom { start })
+                    l = next(iter(_operand_locals(cs.args[1])), None)
+                    for _ in range(6):
+                        ds = [d for d in b.defs.get(l, ()) if d[0] in loop] if l is not None else []
+                        if len(ds) != 1:
+                            break
+                        d = ds[0]
+                        if d[2] == "call" and d[3].name in ("index_mut", "index", "get_mut", "split_at_mut") and len(d[3].args) >= 2:
+                            where = ("start of the destination slice", d[3].args[1])
+                            break
+                        if d[2] == "assign" and d[3]["k"] in ("ref", "use", "cast"):
+                            l = next(iter(_operand_locals(d[3])), None)
+                            continue
+                        break
+                key = "%s#%s" % (m, cs.name)
+                detail = {"function": b.path, "fragment_length_read_at": cs0.loc(), "read_at": cs.loc(), "decided_on": where[0] if where else None}
+                if where is None:
+                    ctx.fail(rule, key + "#undecided", "the destination of the fragment read at %s is not a slice of the buffer taken inside "
+                                                       "the loop: where the fragment lands cannot be decided" % cs.loc(), cs.loc(), detail)
+                elif not loop_variant(b, loop, where[1]):
+                    ctx.fail(rule, key, "the %s of the fragment read is the same in every iteration: the second and later continuation "
+                                        "fragments overwrite the first one instead of being appended" % where[0], cs.loc(), detail)
+                else:
+                    ctx.ok(rule, key, detail)
+    ctx.floor(rule, n, "C10.R7.reads")
+
+
 def run(ctx):
     r1(ctx)
     selectors(ctx, "C10.R6", pin=False)
@@ -228,3 +354,4 @@ def run(ctx):
     r3(ctx)
     from .c02 import r3 as sign_sensitivity
     sign_sensitivity(ctx, rule="C10.R5")
+    r7(ctx)
